@@ -79,7 +79,67 @@ def collection_chain(ctx, v, depth=0):
     return ads_all, ("unknown", v), helpers
 
 
-def raw_scan_items(ctx, fn):
+def affected_filter(ctx, fav, helpers, DENOM):
+    """The scan is narrowed by `.filter(|item| match item { Ok((_, rec)) => rec.asset_infos.iter().any(|a| a is the native
+    coin `denom`), Err(_) => true })`: exactly the records with a position to update are kept (errors are kept and surface
+    at the collect).  `fav` is the filter call value; the predicate's denom must be the handler's denom (through the helper's
+    parameter).  Returns a description or None."""
+    P = ctx.P
+    try:
+        clo = fav[4][1]
+        if clo[0] != "agg" or clo[1] != "closure":
+            return None
+        cf = P.fn(clo[2])
+        IP = P_(cf, 1)
+        any_v = None
+        seen = set()
+        for b, v, cs in lemmas.fn_table(ctx, cf):
+            cs = set(cs)
+            if cs == {"discr(%s) in ['Err']" % IP}:
+                if v != ("const", "int", 1):
+                    return None
+                seen.add("Err")
+            elif cs == {"discr(%s) in ['Ok']" % IP}:
+                any_v = v
+                seen.add("Ok")
+            else:
+                return None
+        if seen != {"Err", "Ok"} or any_v is None or any_v[0] != "call" or not isinstance(any_v[3], str) or common.last_seg(any_v[3]) != "any":
+            return None
+        ads, kind, src = common.iter_chain(any_v[4][0])
+        sr = "|".join(sorted(ctx.roots(src)))
+        if ads or kind != "iter" or not re.match(r"^%s(~Ok)?(\.0)?\.1\.asset_infos$" % re.escape(IP), sr):
+            return None
+        c2 = any_v[4][1]
+        cf2 = P.fn(c2[2]) if c2[0] == "agg" and c2[1] == "closure" else None
+        ex2 = common.exit_sites(P, cf2) if cf2 is not None else []
+        if len(ex2) != 1 or ex2[0][3][0] != "call" or not isinstance(ex2[0][3][3], str):
+            return None
+        pv = ex2[0][3]
+        g = P.fn(pv[3]) or P.fn(generic_path(pv[3]))
+        if g is None or g.body is None or len(pv[4]) != 2 or set(ctx.roots(pv[4][0])) != {P_(cf2, 1)}:
+            return None
+        # the denom compared is the handler's denom
+        dr = set(ctx.R.with_captures(c2).roots(pv[4][1]))
+        for f_, cv_ in reversed(helpers):
+            dr2 = set()
+            for r_ in dr:
+                m_ = re.match(r"^P:%s#(\d+)$" % re.escape(f_.path), r_)
+                dr2 |= set(ctx.roots(cv_[4][int(m_.group(1))])) if m_ and int(m_.group(1)) < len(cv_[4]) else {r_}
+            dr = dr2
+        if dr != {DENOM}:
+            return None
+        # the predicate: true exactly for NativeToken { denom: d } with d == its argument
+        tc = common.truth_conditions(P, g, None, 0, True)
+        want = {"discr(%s) in ['NativeToken']" % P_(g, 0), "eq(%s) is [True]" % ", ".join(sorted([P_(g, 0, "~NativeToken.denom"), P_(g, 1)]))}
+        if tc is None or set(lemmas.cond_strings(ctx, tc)) != want:
+            return None
+        return "filter keeps exactly the records with a native asset equal to the denom (%s)" % g.path
+    except (AnchorMissing, KeyError, IndexError, TypeError):
+        return None
+
+
+def raw_scan_items(ctx, fn, DENOM=None, any_filter=False):
     """Item roots of loops in fn that iterate the *stored* registry entries `(key, PairInfoRaw)` themselves: a PAIRS scan
     collected without map / filter / bound (directly or through helpers).  {item_root: loop}"""
     P = ctx.P
@@ -94,7 +154,11 @@ def raw_scan_items(ctx, fn):
             ads2, source, helpers = collection_chain(ctx, src)
         except Exception:
             continue
-        if ads2 or source[0] != "scan":
+        if source[0] != "scan":
+            continue
+        if ads2 and any_filter and all(a == "filter" for a, _ in ads2):
+            pass        # a filter drops entries but never alters one: key and record of a yielded element are still the stored ones
+        elif ads2 and not (DENOM is not None and [a for a, _ in ads2] == ["filter"] and ads2[0][1] is not None and affected_filter(ctx, ads2[0][1], helpers, DENOM)):
             continue
         # the elements really are the stored entries: the iterator yields `(Vec<u8>, PairInfoRaw)` (a push-built vector of
         # humanised records has no adaptor either, but a different element type)
@@ -155,6 +219,11 @@ def _run(ctx):
     names2 = [a for a, _ in ads2]
     bounding = [a for a in names2 if a in BOUNDING]
     where = common.span_of_block_term(h, walk["next_bb"])
+    if bounding == ["filter"] and [x for x in ads2 if x[0] == "filter"][0][1] is not None:
+        why_f = affected_filter(ctx, [x for x in ads2 if x[0] == "filter"][0][1], helpers, DENOM)
+        if why_f:
+            bounding = []
+            r1.site(why_f)
     if source[0] != "scan":
         r1.fail("C17.R1:source", h.path, where, "the walked collection does not originate from a scan of the pair registry (%s): unrecognised-idiom" % ctx.show(source[1], 3))
     else:
@@ -261,7 +330,7 @@ def _run(ctx):
     item = walk["item_root"]
     # raw mode: the walk iterates the stored entries (key, PairInfoRaw) themselves instead of humanised records that are
     # looked up again by key: the record is the scanned value, its key the scanned key
-    raw_mode = item in raw_scan_items(ctx, h)
+    raw_mode = item in raw_scan_items(ctx, h, DENOM)
     item_key = None
     if raw_mode:
         item_key = item + ".0"
@@ -510,7 +579,10 @@ def _run(ctx):
         r3.fail("C17.R3:response", h.path, h.span, "expected one add_messages attaching the update messages, found %d" % len(adds))
     else:
         ab, av = adds[0]
-        if not body.edge_dominates(walk["none_edge"], ab):
+        # after the walk: reachable from the walk's exit and not from inside an iteration (a path that skips the walk
+        # altogether — nothing to update — is judged by the skip-gate rule C17.R1)
+        inside_ = body.reachable_from(walk["some_edge"][1], cut_edges=(walk["none_edge"],))
+        if not (body.edge_dominates(walk["none_edge"], ab) or (ab in body.reachable_from(walk["none_edge"][1]) and ab not in inside_)):
             r3.fail("C17.R3:response-early", h.path, common.span_of_block_term(h, ab), "the messages are attached before the walk completes")
         pushes = [b for b, p, fr_, t in P.calls(h) if p and generic_path(p).endswith("Vec::push") and b in loop_blocks]
         if len(pushes) != len(execs):
